@@ -239,6 +239,7 @@ func (c17) Run(e *Env) {
 	// the flushed map: unique name per series, k:v tags from [A-Za-z0-9_.:/-], values with <= 6 decimals
 	tagPoolC17 := []string{"env:prod", "az:a-1", "path:/x/y", "v:1.2", "team:core_infra", "vhost:web-1", "db_host:db.internal", "hostname:h1", "name:host"}
 	nSeries := 1 + e.Choose("series", 9)
+	roundValues := e.Chance(1, 4)
 	in := gostatsd.NewMetricMap(false)
 	ts := gostatsd.Nanotime(time.Now().UnixNano())
 	type srs struct {
@@ -266,6 +267,15 @@ func (c17) Run(e *Env) {
 			s.tags = append(s.tags, "gsd_histogram:10_100_1000")
 			e.Probe("histogram-timer")
 		}
+		if strings.HasPrefix(kind, "influxdb") && len(series) > 0 && e.Chance(1, 3) {
+			// twin of the previous series: no source, the source as a tag instead (what a relay tier
+			// produces); the two have one and the same tags key
+			if prev := series[len(series)-1]; prev.source != "" && len(prev.tags) > 0 && !prev.hist && !s.hist {
+				s.source = ""
+				s.tags = append(append([]string(nil), prev.tags...), "s:"+prev.source)
+				e.Probe("source-as-tag-twin")
+			}
+		}
 		series = append(series, s)
 		maxVals := 5
 		if strings.HasPrefix(kind, "statsdaemon") {
@@ -276,6 +286,13 @@ func (c17) Run(e *Env) {
 			val := float64(e.Draw(2000000)) / 1000
 			if e.Chance(1, 5) {
 				val = -val
+			}
+			if roundValues {
+				val = []float64{0, 1, 5, 1000}[e.Draw(4)] // whole numbers, met again and again across series
+			}
+			if s.kind == "gauge" && e.Chance(1, 15) {
+				val = []float64{9223372036854775807, -9223372036854775808, 4294967296, 18446744073709551615}[e.Draw(4)] // 2^63: the usual "unlimited" sentinel
+				e.Probe("gauge-at-an-integer-boundary")
 			}
 			switch s.kind {
 			case "counter":
